@@ -586,6 +586,66 @@ def _exec_fields_clauses(blocking):
     return out
 
 
+def _default_value_clauses():
+    STR = "isinstance(dv, str) and isinstance(type_, ScalarType)"
+
+    def none_iff_no_default(p):
+        a = p.assumed("not input_value.has_default_value")
+        if a is None or p.outcome != "return":
+            return None
+        is_none = isinstance(p.payload, T.Const) and p.payload.value is None
+        return is_none == a and (not a or p.events == ())
+
+    def through_the_printer(p):
+        # the reported text is GraphQL syntax: the declared default turned into a value node of the declared type and printed
+        if p.assumed("not input_value.has_default_value") is not False or p.outcome != "return":
+            return None
+        return p.events == ("ast_node_from_value(dv,input_value.type)", "print_ast") and isinstance(p.payload, Unknown) and p.payload.text.startswith("print_ast")
+
+    return [
+        ("null-exactly-without-default", "defaultValue is null exactly when the input value declares no default", none_iff_no_default),
+        ("rendered-by-the-printer", "a declared default is reported as the printed value node of the declared type (GraphQL syntax, escaped)", through_the_printer),
+    ]
+
+
+def _max_depth_clauses():
+    def no_empty_max(p):
+        m = [e for e in p.events if e.startswith("max(")]
+        return None if not m else all(e == "max(default)" for e in m)
+
+    def reports_iff_deeper(p):
+        facts = [(t, o) for t, o in p.facts if "depth" in t and "max_depth" in t]
+        if not facts or p.outcome != "return":
+            return None
+        t, o = facts[-1]
+        norm = t.replace(" ", "")
+        if norm in ("depth>self.max_depth", "self.max_depth<depth"):
+            return ("report" in p.events) == o
+        if norm in ("depth<=self.max_depth", "self.max_depth>=depth"):
+            return ("report" in p.events) == (not o)
+        if norm in ("depth>=self.max_depth", "self.max_depth<=depth", "depth<self.max_depth", "self.max_depth>depth"):
+            return False            # the limit is inclusive: a depth equal to the limit is allowed
+        raise T.Unsupported("depth comparison %r not recognised" % t)
+
+    def error_names_the_operation(p):
+        r = [e for e in p.events if e.startswith("error(")]
+        return None if not r else all(e == "error(nodes=[op])" for e in r)
+
+    def filter_respected(p):
+        f = [o for t, o in p.facts if t.replace(" ", "").startswith("self.operation_nameand")]
+        if not f or f[-1] is not True:
+            return None
+        inside = p.events[p.events.index([e for e in p.events if e.startswith("for[")][0]) + 1:] if any(e.startswith("for[") for e in p.events) else ()
+        return not any(e in ("collect", "report") or e.startswith("max(") for e in inside)
+
+    return [
+        ("flat-operations-have-depth-zero", "the maximum over the selected paths has a default, so an operation without nested fields does not raise", no_empty_max),
+        ("reports-exactly-the-deeper-operations", "an operation is reported exactly when its depth exceeds the (inclusive) limit", reports_iff_deeper),
+        ("error-names-the-operation", "each reported error carries the operation node", error_names_the_operation),
+        ("operation-name-filter", "with operation_name set, other operations are neither measured nor reported", filter_respected),
+    ]
+
+
 TRACE_CONTRACTS = [
     dict(id="BlockingExecutor.resolve_field", target="py_gql.execution.blocking_executor:BlockingExecutor.resolve_field", props=["C16"],
          config=Config(events=FIELD_EVENTS, nothrow=FIELD_NOTHROW), clauses=FIELD_CLAUSES,
@@ -617,6 +677,18 @@ TRACE_CONTRACTS = [
                                (r"gather_values$", "gather"), (r"^zip$", lambda call, args, kwargs: "zip(%s)" % ",".join(__import__("ast").unparse(a) for a in call.args))],
                        nothrow=[r"^OrderedDict$", r"\.append$", r"^zip$", r"gather_values$"], callbacks=[(r"runtime\.map_value$", map_value_contract)]),
          clauses=_exec_fields_clauses(False), assumes=["Runtime.map_value effect contract; gather_values keeps input order (bounded by C08)"]),
+    dict(id="_format_default_value", target="py_gql.schema.introspection:_format_default_value", props=["C15"],
+         config=Config(events=[(r"^print_ast$", "print_ast"),
+                               (r"^ast_node_from_value$", lambda call, args, kwargs: "ast_node_from_value(%s)" % ",".join(__import__("ast").unparse(a) for a in call.args))],
+                       nothrow=[]),
+         clauses=_default_value_clauses(), assumes=["print_ast / ast_node_from_value are the printer and the value-to-node conversion (bounded under C03 / C12)"]),
+    dict(id="MaxDepthValidationRule.__call__", target="py_gql.utilities.max_depth:MaxDepthValidationRule.__call__", props=["C19"],
+         config=Config(events=[(r"^collect_fields_untyped$", "collect"), (r"^selected_fields$", "selected_fields"),
+                               (r"^max$", lambda call, args, kwargs: "max(default)" if "default" in kwargs else "max()"),
+                               (r"^errors\.append$", "report"),
+                               (r"^ValidationError$", lambda call, args, kwargs: "error(%s)" % ",".join("%s=%s" % (k.arg, __import__("ast").unparse(k.value)) for k in call.keywords))],
+                       nothrow=[r"^max$", r"^errors\.append$", r"^ValidationError$", r"\.count$", r"\.values$"]),
+         clauses=_max_depth_clauses(), assumes=["the depth of a path is its number of segments (selected_fields is bounded under C19's stand-in)"]),
     dict(id="BlockingRuntime.map_value", target="py_gql.execution.runtime.blocking:BlockingRuntime.map_value", props=["C16", "C08"],
          config=Config(events=[(r"^then$", "then"), (r"^else_\[1\]$", "else")]),
          clauses=[("then-exactly-once-first", "`then` is invoked exactly once, first", lambda p: count(p.events, "then") == 1 and p.events[0] == "then"),
